@@ -102,6 +102,7 @@ type Translator struct {
 	short  string
 	rangeOfNext map[*ssa.BasicBlock]*ssa.Range
 	parent  *Translator
+	callOrd map[*ssa.Call]int
 	rets    []retEdge
 	notesUp []string
 }
